@@ -13,6 +13,8 @@ CONSTANTS Days,        \* days with a weather file
           MissingDays, \* days without a weather file: a query for them is refused and leaves nothing open
           Hours, MaxQ
 
+\* A timed file holds one step per hour from midnight and need not cover the whole day (the harness's day 2 ends at 12 h):
+\* hour h is step h, whatever the length of the axis.
 \* Minutes: an instant (day, hour, minute) belongs to the hour that has begun - 14:45 is answered from the field of
 \* 14 h like 14:00 (the minute is not a variable of the machine; the harness spreads 0, 29, 30, 45, 59 over the queries)
 \* the wind (an integer tag) a file holds: per hour for timed files, one field otherwise
